@@ -1,5 +1,6 @@
 (* C18 -- every concurrent execution of Get/Put/Delete callers on one store is
    equal to a sequential order of the operations (Model/CredConc.v). *)
+From Coq Require Import Lia.
 From Oras Require Import Base.Prelude Generated.GC18 Model.CredFile Model.CredConc Proofs.CredFile.
 
 Section ConcProofs.
@@ -205,6 +206,54 @@ Section ConcProofs.
       assert (WI : g_writer g = Some i) by (apply LW; rewrite H; exact I).
       apply (lin_same g0 g); [exact L|].
       unfold abs. cbn [g_store g_writer g_threads]. now rewrite WI, H.
+  Qed.
+
+  (* ----- the file at EVERY reachable state (hence at a crash at any moment of a
+     concurrent execution) is the file of a sequential prefix of the linearisation ----- *)
+  Definition file_inv (g0 g : gstate) (lin : list label) : Prop :=
+    exists n, (n <= length lin)%nat /\
+              st_file (g_store g) = st_file (run (g_store g0) (map lab_op (firstn n lin))).
+
+  Lemma firstn_app_le {A} (l l' : list A) n : (n <= length l)%nat -> firstn n (l ++ l') = firstn n l.
+  Proof.
+    intro H. rewrite firstn_app. replace (n - length l)%nat with 0%nat by lia.
+    cbn [firstn]. now rewrite app_nil_r.
+  Qed.
+
+  Lemma file_keep g0 g g' lin x :
+    file_inv g0 g lin -> st_file (g_store g') = st_file (g_store g) -> file_inv g0 g' (lin ++ x).
+  Proof.
+    intros (n & LE & F) E. exists n. split; [rewrite app_length; lia|].
+    rewrite E, F. now rewrite firstn_app_le.
+  Qed.
+
+  Lemma file_step g0 g l g' lin :
+    lock_inv g -> lin_inv g0 g lin -> file_inv g0 g lin -> cstep g l g' ->
+    file_inv g0 g' (lin ++ match l with Some x => [x] | None => [] end).
+  Proof.
+    intros (LW & LR & LO) (A & _) FI S.
+    inversion S; subst; clear S; try (apply (file_keep g0 g); [exact FI|reflexivity]).
+    (* wfile *)
+    destruct sv; [|apply (file_keep g0 g); [exact FI|reflexivity]].
+    assert (WI : g_writer g = Some i) by (apply LW; rewrite H; exact I).
+    exists (length lin). rewrite app_nil_r. split; [lia|].
+    rewrite firstn_all, <- A. unfold abs. rewrite WI, H. reflexivity.
+  Qed.
+
+  Lemma file_always_sequential g0 g lin :
+    initial g0 -> creach g0 g lin ->
+    exists n, (n <= length lin)%nat /\
+              st_file (g_store g) = st_file (run (g_store g0) (map lab_op (firstn n lin))).
+  Proof.
+    intros I R.
+    assert (INV : lock_inv g /\ lin_inv g0 g lin /\ file_inv g0 g lin).
+    { induction R.
+      - split; [now apply lock_initial|]. split.
+        + split; [|reflexivity]. apply abs_no_writer. apply I.
+        + exists 0%nat. split; [apply Nat.le_refl|reflexivity].
+      - destruct IHR as (LI & LN & FI). split; [eapply lock_step; eauto|].
+        split; [now apply (lin_step g0 g)|now apply (file_step g0 g)]. }
+    exact (proj2 (proj2 INV)).
   Qed.
 
   (* ----- per-thread bookkeeping: program order and returned results ----- *)
